@@ -49,6 +49,11 @@ Fixpoint heap_run (l : list Z) (ops : list hop) : list (option Z) * list Z :=
   end.
 End WithLt.
 
+(* NewHeapFromIterator: every value the iterator delivers is Push-ed, in arrival order; whatever
+   prefix was consumed when the iterator failed or the context ended is what the returned heap holds *)
+Definition heap_from_list (lt : Z -> Z -> bool) (l : list Z) : list Z :=
+  fold_left (fun h v => heap_push lt v h) l [].
+
 (* the family of comparison functions the harness uses, by id *)
 Definition lt_of (k : Z) : Z -> Z -> bool :=
   match k with
